@@ -88,28 +88,28 @@ Definition survives (items : list item) (t : table) : bool :=
   negb (forallb is_int (map (item_at items) (taxes t))).
 
 Lemma slice_table_tid items t r : slice_table items t = Ok r ->
-  match r with
-  | inl t' => tid t' = tid t /\ survives items t = true
-  | inr t' => tid t' = tid t /\ survives items t = false
+  match fst r with
+  | Some t' => tid t' = tid t /\ survives items t = true
+  | None => survives items t = false
   end.
 Proof.
   unfold slice_table, survives.
   destruct (map2r sel_axis (tlens t) (map (item_at items) (taxes t))); [|discriminate].
-  destruct (tkind_ t); destruct (forallb is_int (map (item_at items) (taxes t))); intros H; inversion H; subst; cbn; split; reflexivity.
+  destruct (tkind_ t); destruct (forallb is_int (map (item_at items) (taxes t))); intros H; inversion H; subst; cbn; try split; reflexivity.
 Qed.
 
 Theorem ec_getitem_order items e e' : ec_getitem items e = Ok e' ->
   map tid (tables e') = map tid (filter (survives items) (tables e)).
 Proof.
   unfold ec_getitem. destruct (mapr (slice_table items) (tables e)) as [l|] eqn:E; [|discriminate].
-  destruct (partition_sum l) as [kept drp] eqn:Ep. intros H; inversion H; subst; cbn [tables]. clear H.
-  revert l kept drp E Ep. induction (tables e) as [|t ts IH]; intros l kept drp E Ep; cbn [mapr] in E.
-  - inversion E; subst. cbn in Ep. inversion Ep; reflexivity.
+  intros H; inversion H; subst; cbn [tables]. clear H.
+  revert l E. induction (tables e) as [|t ts IH]; intros l E; cbn [mapr] in E.
+  - inversion E; subst. reflexivity.
   - destruct (slice_table items t) as [r|] eqn:Et; [|discriminate].
     destruct (mapr (slice_table items) ts) as [rs|] eqn:Er; [|discriminate].
-    inversion E; subst; clear E. cbn [partition_sum] in Ep.
-    destruct (partition_sum rs) as [k' d'] eqn:Ep'. pose proof (slice_table_tid _ _ _ Et) as Ht.
-    cbn [filter]. destruct r as [t'|t']; inversion Ep; subst; destruct Ht as [Hid Hs]; rewrite Hs; cbn [map].
-    + rewrite Hid. f_equal. eapply IH; [reflexivity|exact Ep'].
-    + eapply IH; [reflexivity|exact Ep'].
+    inversion E; subst; clear E. cbn [flat_map filter].
+    pose proof (slice_table_tid _ _ _ Et) as Ht.
+    destruct (fst r) as [t'|]; cbn [opt_list].
+    + destruct Ht as [Hid Hs]. rewrite Hs. cbn [app map]. rewrite Hid. f_equal. apply IH. reflexivity.
+    + rewrite Ht. cbn [app]. apply IH. reflexivity.
 Qed.
